@@ -378,7 +378,7 @@ func RunCase(seed uint64, idx int, p *Profile, o *Opts, st *Stats) (cr *CaseResu
 				cr.Cov["shrink-converged"]++
 			}
 		}
-		if o.Digest && i%16 == 0 && m.Locks < 60 {
+		if o.Digest && i%16 == 0 && d.Headroom() {
 			dg.add(worldDigest(d))
 			if twin != nil && o.Twin == "same" {
 				dgB.add(worldDigest(twin))
@@ -409,6 +409,12 @@ func RunCase(seed uint64, idx int, p *Profile, o *Opts, st *Stats) (cr *CaseResu
 					defer func() { recover() }()
 					d.closeQuery(&Op{Slot: s})
 				}()
+				if twin != nil && !twin.ForceUnsafe {
+					func() {
+						defer func() { recover() }()
+						twin.closeQuery(&Op{Slot: s})
+					}()
+				}
 				m.QueryClosed(s)
 			}
 		}
